@@ -175,6 +175,8 @@ type caseDesc struct {
 type seqStep struct {
 	Sel   []string `json:"sel"`
 	Event bool     `json:"event"`
+	// Fail: the first exchange of this kind (blocks headers receipts logs traces) of the step is answered with HTTP 500
+	Fail string `json:"fail,omitempty"`
 }
 
 // session: the client shared by the steps of a sequence and what its caches hold
@@ -298,9 +300,18 @@ func runCase(e *env, sel []string, withEvent bool, ss *session) (caseDesc, strin
 		if !filter.UseBlocks && filter.UseHeaders && !seen["GHeaders"] && ss.cached["GHeaders"] {
 			seen["GHeaders"] = true
 		}
-		for _, k := range []string{"GBlocks", "GHeaders"} {
-			if seen[k] {
-				ss.cached[k] = true
+		if !panicked && err == nil { // a failed fetch leaves nothing in the cache
+			for _, k := range []string{"GBlocks", "GHeaders"} {
+				if seen[k] {
+					ss.cached[k] = true
+				}
+			}
+		} else if (filter.UseBlocks && seen["GBlocks"] && !ss.cached["GBlocks"]) || (!filter.UseBlocks && filter.UseHeaders && seen["GHeaders"] && !ss.cached["GHeaders"]) {
+			// the base fetch itself may have been the one that succeeded before a later request failed: it is cached then
+			for _, x := range e.node.Sent() {
+				if (x.Kind == "blocks" || x.Kind == "headers") && x.Status/100 == 2 {
+					ss.cached[map[string]string{"blocks": "GBlocks", "headers": "GHeaders"}[x.Kind]] = true
+				}
 			}
 		}
 	}
@@ -432,13 +443,29 @@ func addSeq(out *lib.Out, e *env, seq []seqStep, kind string) {
 	url := e.node.URL() + "/cached"
 	ss := &session{c: jrpc2.New(url), url: url, cached: map[string]bool{}}
 	for i, st := range seq {
+		if st.Fail != "" {
+			done := false
+			k := st.Fail
+			e.node.Pre(func(x *simnode.Exchange) {
+				if !done && x.Kind() == k {
+					done = true
+					x.Status = 500
+				}
+			})
+		}
 		addStep(out, e, st.Sel, st.Event, kind, ss, seq, i)
+		e.node.Pre(nil)
 	}
 }
 
 func addStep(out *lib.Out, e *env, sel []string, withEvent bool, kind string, ss *session, seq []seqStep, step int) {
 	d, coq := runCase(e, sel, withEvent, ss)
 	d.Seq, d.Step = seq, step
+	if len(seq) > 0 && seq[step].Fail != "" && strings.Contains(d.Err, "rpc http error: 500") {
+		// the injected failure: the step fails as it must, nothing is stored, nothing to compare
+		out.Count("injected-failure-" + seq[step].Fail)
+		return
+	}
 	if coq == "" {
 		coq = `CPlan MTx [] ["?"] [] []`
 	}
@@ -449,7 +476,11 @@ func addStep(out *lib.Out, e *env, sel []string, withEvent bool, kind string, ss
 		if len(seq) > 0 {
 			var plans []string
 			for _, st := range seq[:step+1] {
-				plans = append(plans, fmt.Sprintf("%v/event=%v", st.Sel, st.Event))
+				f := ""
+				if st.Fail != "" {
+					f = "/FAIL " + st.Fail
+				}
+				plans = append(plans, fmt.Sprintf("%v/event=%v%s", st.Sel, st.Event, f))
 			}
 			msg += fmt.Sprintf(" -- step %d of a sequence on one caching client: %s", step+1, strings.Join(plans, " ; "))
 		}
@@ -488,7 +519,7 @@ func runC14(cfg Cfg) error {
 	e := newEnv()
 	defer e.node.Close()
 	out := lib.NewOut("C14", cfg.Out, c14Header, "run", 100)
-	out.Rule = "dig.New(config.AddRequiredFields(sel)).Filter() -> jrpc2.Client.Get against the scripted node (every field of every item distinct and non-zero) -> Integration.Insert into a Go-level wpg.Conn capturing CopyFrom: every selectable field alone, ALL unordered pairs exhaustively, one representative set per subset of membership classes, random larger sets; without an event (transaction / trace rows) and with an event (log rows); 52 sequences of 2-3 integrations with different plans over the same range on ONE caching client (every ordered pair within the plans sharing the header cache and within those sharing the block cache, mixed triples). Oracle: every stored column of every row equals the node's value for that item and the number of rows equals the number of items. Model-diff: required fields, requests seen by the node = dispatch(glf.New), observed supplied-matrix = Provides. non-trivial = at least one non-context field selected"
+	out.Rule = "dig.New(config.AddRequiredFields(sel)).Filter() -> jrpc2.Client.Get against the scripted node (every field of every item distinct and non-zero) -> Integration.Insert into a Go-level wpg.Conn capturing CopyFrom: every selectable field alone, ALL unordered pairs exhaustively, one representative set per subset of membership classes, random larger sets; without an event (transaction / trace rows) and with an event (log rows); 52 sequences of 2-3 integrations with different plans over the same range on ONE caching client (every ordered pair within the plans sharing the header cache and within those sharing the block cache, mixed triples), and sequences [X with one of its requests failing once; another plan Y; retry of X] for every plan X, every request kind of X, three Y. Oracle: every stored column of every row equals the node's value for that item and the number of rows equals the number of items. Model-diff: required fields, requests seen by the node = dispatch(glf.New), observed supplied-matrix = Provides. non-trivial = at least one non-context field selected"
 	if cfg.Replay != "" {
 		raw, err := os.ReadFile(cfg.Replay)
 		if err != nil {
@@ -547,18 +578,18 @@ func runC14(cfg Cfg) error {
 	// earlier Get attached to the shared cached blocks (hash-only transactions of logs()/traces(), receipts,
 	// traces) must not keep a later one from storing the node's values
 	hGroup := []seqStep{
-		{[]string{"block_time", "tx_hash", "log_addr"}, true},                                    // h,l
-		{[]string{"block_time", "tx_status", "tx_signer", "tx_to", "tx_type", "tx_hash"}, false}, // h,r
-		{[]string{"block_time", "tx_gas_used", "tx_to", "tx_type", "trace_action_from"}, false},  // h,r,t
-		{[]string{"block_time", "tx_contract_address", "tx_signer", "tx_to", "log_idx"}, true},   // h,r with an event
-		{[]string{"block_time", "block_hash", "tx_effective_gas_price", "tx_signer"}, false},     // h,r
+		{Sel: []string{"block_time", "tx_hash", "log_addr"}, Event: true},                                    // h,l
+		{Sel: []string{"block_time", "tx_status", "tx_signer", "tx_to", "tx_type", "tx_hash"}, Event: false}, // h,r
+		{Sel: []string{"block_time", "tx_gas_used", "tx_to", "tx_type", "trace_action_from"}, Event: false},  // h,r,t
+		{Sel: []string{"block_time", "tx_contract_address", "tx_signer", "tx_to", "log_idx"}, Event: true},   // h,r with an event
+		{Sel: []string{"block_time", "block_hash", "tx_effective_gas_price", "tx_signer"}, Event: false},     // h,r
 	}
 	bGroup := []seqStep{
-		{[]string{"tx_input", "tx_signer", "tx_to", "tx_type", "tx_gas_price"}, false},        // b
-		{[]string{"tx_value", "log_addr", "tx_to"}, true},                                     // l,b
-		{[]string{"tx_nonce", "tx_status", "tx_signer", "tx_type"}, false},                    // b,r
-		{[]string{"tx_input", "trace_action_to", "tx_signer"}, false},                         // b,t
-		{[]string{"tx_max_fee_per_gas", "tx_gas_used", "trace_action_value", "tx_to"}, false}, // b,r,t
+		{Sel: []string{"tx_input", "tx_signer", "tx_to", "tx_type", "tx_gas_price"}, Event: false},        // b
+		{Sel: []string{"tx_value", "log_addr", "tx_to"}, Event: true},                                     // l,b
+		{Sel: []string{"tx_nonce", "tx_status", "tx_signer", "tx_type"}, Event: false},                    // b,r
+		{Sel: []string{"tx_input", "trace_action_to", "tx_signer"}, Event: false},                         // b,t
+		{Sel: []string{"tx_max_fee_per_gas", "tx_gas_used", "trace_action_value", "tx_to"}, Event: false}, // b,r,t
 	}
 	nseq := 0
 	for _, g := range [][]seqStep{hGroup, bGroup} {
@@ -578,7 +609,40 @@ func runC14(cfg Cfg) error {
 		addSeq(out, e, order, "sequence-3")
 		nseq++
 	}
+	// sequences with a FAILED request: plan X with its k-th kind of request failing once, then another plan Y
+	// (same or other cache), then the retry of X; nothing a failed Get left behind may reach a later one
+	kindsOf := func(st seqStep) []string {
+		d, _ := runCase(e, st.Sel, st.Event, nil)
+		var ks []string
+		for _, f := range d.Fetches {
+			if k := map[string]string{"GBlocks": "blocks", "GHeaders": "headers", "GReceipts": "receipts", "GLogs": "logs", "GTraces": "traces"}[f]; k != "" {
+				ks = append(ks, k)
+			}
+		}
+		return ks
+	}
+	all := append(append([]seqStep{}, hGroup...), bGroup...)
+	nfail := 0
+	for xi, x := range all {
+		for ki, k := range kindsOf(x) {
+			xf := x
+			xf.Fail = k
+			for yo := 0; yo < 3; yo++ {
+				// one neighbour of the same cache group, two of the other group
+				var y seqStep
+				switch yo {
+				case 0:
+					y = all[(xi/5)*5+(xi+1+ki)%5]
+				default:
+					y = all[((xi/5+1)%2)*5+(xi+ki+2*yo)%5]
+				}
+				addSeq(out, e, []seqStep{xf, y, x}, "sequence-failure")
+				nfail++
+			}
+		}
+	}
 	out.Notes["sequences"] = nseq
+	out.Notes["failure_sequences"] = nfail
 	// singles
 	for _, f := range names {
 		both([]*fieldDef{f}, "single")
